@@ -436,29 +436,80 @@ def ok_return_witness(fn, guard=None, var=None, ok_callees=None, extra_removed=N
     return None
 
 
+def stable_conditions(fn):
+    """Branch conditions that cannot change between two evaluations: their only variables are
+    parameters / locals that are defined once (or never) and whose address is never taken, and they
+    contain no call and no memory load.  {block: canonical text} for two-way branch blocks."""
+    if getattr(fn, "_stable", None) is not None:
+        return fn._stable
+    ndefs = {}
+    for bid, i, el in fn.elems():
+        for (v, kind, node) in fn.defs_in_elem(el["e"]):
+            ndefs[v] = ndefs.get(v, 0) + (2 if kind == "out" else 1)
+    out = {}
+    for bid in fn.blocks:
+        if len([e for e in fn.succ[bid] if e.label in ("T", "F")]) != 2:
+            continue
+        c = fn.branch_cond(bid)
+        if c is None:
+            continue
+        c = fn.deep(c)
+        ok = True
+        for n in walk(c):
+            k = n.get("k")
+            if k in ("call", "mem", "idx", "asg", "cond", "other", "stmtexpr") or (k == "un" and n["op"] in ("*", "&", "post++", "post--", "pre++", "pre--")):
+                ok = False
+                break
+            if k == "var":
+                if n["s"] == "param" and ndefs.get(n["n"], 0) == 0:
+                    continue
+                if n["s"] == "local" and ndefs.get(n["n"], 0) <= 1:
+                    # a single definition (its initialiser): stable once both branches come after it
+                    continue
+                ok = False
+                break
+        if ok:
+            out[bid] = show(c)
+    fn._stable = out
+    return out
+
+
 def must_pass(fn, sink_blocks, guard, start=None, extra_removed=None):
     """R1 at block granularity: is some block of sink_blocks reachable from entry without
-    crossing an edge where guard holds?  Returns witness path (list of blocks) or None."""
+    crossing an edge where guard holds?  Returns witness path (list of blocks) or None.
+    Paths that decide the same stable condition (see stable_conditions) in two different ways
+    are infeasible and not followed."""
     start = fn.entry if start is None else start
     sink_blocks = set(sink_blocks)
-    prev = {start: None}
-    work = [start]
+    stable = stable_conditions(fn)
+    s0 = (start, frozenset())
+    prev = {s0: None}
+    work = [s0]
     while work:
-        b = work.pop(0)
-        if b in sink_blocks and (b != start or True):
+        node = work.pop(0)
+        b, dec = node
+        if b in sink_blocks:
             p = []
-            while b is not None:
-                p.append(b)
-                b = prev[b]
+            while node is not None:
+                p.append(node[0])
+                node = prev[node]
             return list(reversed(p))
         for e in fn.succ[b]:
             if guard is not None and guard.holds(fn, e):
                 continue
             if extra_removed is not None and extra_removed(e):
                 continue
-            if e.dst not in prev:
-                prev[e.dst] = b
-                work.append(e.dst)
+            d2 = dec
+            if b in stable and e.label in ("T", "F"):
+                key = stable[b]
+                if (key, "F" if e.label == "T" else "T") in dec:
+                    continue
+                if len(dec) < 6:
+                    d2 = dec | {(key, e.label)}
+            n2 = (e.dst, d2)
+            if n2 not in prev:
+                prev[n2] = node
+                work.append(n2)
     return None
 
 
@@ -588,3 +639,43 @@ def provenance(fn, bid, idx, e, depth=0):
     if k == "sizeof":
         return "sizeof"
     return "?"
+
+
+def must_pass_fresh(fn, sink, guard, var):
+    """R1 with invalidation: is element `sink` = (block, idx) reachable on a path on which `guard`
+    was not established *after the last definition of* `var`?  Returns a witness block path or None."""
+    sb, si = sink
+
+    def defs_in(b, upto=None):
+        """index of the last element (< upto) of block b that defines var, or None"""
+        last = None
+        els = fn.blocks[b]["elems"]
+        n = len(els) if upto is None else upto
+        for i in range(n):
+            for (v, kind, node) in fn.defs_in_elem(els[i]["e"]):
+                if v == var:
+                    last = i
+        return last
+
+    start = (fn.entry, False)
+    prev = {start: None}
+    work = [start]
+    while work:
+        b, g = work.pop(0)
+        if b == sb:
+            gg = g and defs_in(b, si) is None
+            if not gg:
+                p = []
+                n = (b, g)
+                while n is not None:
+                    p.append(n[0])
+                    n = prev[n]
+                return list(reversed(p))
+        g_out = g and defs_in(b) is None
+        for e in fn.succ[b]:
+            g2 = g_out or guard.holds(fn, e)
+            n = (e.dst, g2)
+            if n not in prev:
+                prev[n] = (b, g)
+                work.append(n)
+    return None
